@@ -116,7 +116,7 @@ Qed.
 
 (** ** the two parsers on a trimmed string *)
 
-Lemma strip_char_app c t w2 :
+Lemma strip_char_app (c : char) (t w2 : str) :
   (match w2 with [] => True | x :: _ => (x =? c) = false end) ->
   strip_char c (t ++ w2) = (fst (strip_char c t), snd (strip_char c t) ++ w2).
 Proof.
@@ -125,7 +125,7 @@ Proof.
   - destruct (x =? c); reflexivity.
 Qed.
 
-Lemma strip_char_spec c s :
+Lemma strip_char_spec (c : char) (s : str) :
   (fst (strip_char c s) = true /\ s = c :: snd (strip_char c s)) \/
   (fst (strip_char c s) = false /\ snd (strip_char c s) = s /\
    match s with [] => True | x :: _ => (x =? c) = false end).
@@ -196,7 +196,7 @@ Lemma forallb_digit_or_dot a : forallb is_digit a = true ->
   forallb (fun c => rs_is_ascii_digit c || (c =? 46)) a = true.
 Proof.
   induction a as [|c a IH]; cbn [forallb]; [reflexivity|]. rewrite andb_true_iff. intros [H1 H2].
-  change rs_is_ascii_digit with is_digit. now rewrite H1, IH.
+  rewrite (IH H2). change (rs_is_ascii_digit c) with (is_digit c). now rewrite H1.
 Qed.
 
 Lemma existsb_digit a : forallb is_digit a = true -> existsb rs_is_ascii_digit a = nonempty a.
@@ -266,7 +266,7 @@ Proof.
     rewrite N.eqb_refl. rewrite (span_all _ _ Hfp).
     destruct (ip ++ fp) eqn:E; [now elim Hne|]. reflexivity.
   - rewrite (Hnd eq_refl) in *. rewrite app_nil_r in *. rewrite (span_all _ _ Hip). cbn [strip_char].
-    destruct ip as [|d ip]; [now elim Hne|]. reflexivity.
+    destruct ip as [|d ip]; [now elim Hne|]. cbn [app]. rewrite app_nil_r. reflexivity.
 Qed.
 
 (** the main lemma: on a trimmed string followed by white space, both agree *)
@@ -323,7 +323,7 @@ Proof.
       * rewrite <- app_assoc. cbn [app]. now apply number_ok_two_dots.
       * apply number_ok_bad_char; [exact Hr2|now apply N.eqb_neq].
   - (* no dot *)
-    rewrite Hr1eq. rewrite (Hall ip r1 Hn).
+    rewrite (Hall ip r1 Hn).
     destruct r1 as [|c r1'] eqn:Er1.
     + rewrite app_nil_r in Hn. cbn [nonempty negb andb]. rewrite Hn, (number_ok_digits ip Hip).
       destruct (nonempty ip) eqn:Hne; [|reflexivity].
